@@ -109,6 +109,10 @@ fn native_for<G: ark_ec::AffineRepr + 'static>(kind: &str, rp: &serde_json::Valu
             let case: scen_c05::C05Case = serde_json::from_value(rp["case"].clone()).unwrap();
             scen_c05::c05_native::<G>(&case, seed, m, torsion)
         }
+        "c04torsion" => match &torsion {
+            Some(t) => scen_c04::c04_torsion_native::<G>(seed, t),
+            None => vec![],
+        },
         "c07torsion" => match &torsion {
             Some(t) => replay::c07_torsion_native::<G>(seed, t),
             None => vec![],
@@ -387,6 +391,14 @@ fn tasks_for(prop: &str, tier: &str, seed: u64) -> Vec<Task> {
                         };
                         native_job("C04", "bitflips", &c, seed, checks, replay)
                     }),
+                });
+            }
+            {
+                let replay = serde_json::json!({"kind": "c04torsion", "seed": seed});
+                out.push(Task {
+                    name: "C04:native_small_order_offsets:curve25519".into(),
+                    replay: replay.clone(),
+                    run: Box::new(move || native_job("C04", "native_small_order_offsets", "curve25519", seed, scen_c04::c04_torsion_native::<Ed>(seed, &ed_torsion()), replay)),
                 });
             }
             for (k, case) in scen_c04::c04_cases(thorough).into_iter().enumerate() {
@@ -811,8 +823,11 @@ fn main() {
                     // model values first, then a few random assignments: a failed polynomial identity fails generically
                     for (k, m) in [(0u64, model.clone()), (1, HashMap::new()), (2, HashMap::new()), (3, HashMap::new())] {
                         let (p_ok, v_ok, hon) = scen_r1cs::replay_plain::<Secq>(&shape, &err, seed + k, cp, cv, m);
-                        let expect = if hon == 3 { true } else if hon == 2 { false } else { expect };
-                        let wrong = !p_ok || v_ok != expect || hon == 4;
+                        let expect = if hon == 3 || hon == 5 { true } else if hon == 2 { false } else { expect };
+                        let wrong = !p_ok || v_ok != expect || hon == 4 || hon == 5;
+                        if hon == 5 {
+                            lines.push(format!("native secq256k1 run {}: the proof is accepted but the transcripts handed back by prover and verifier give different follow-up challenges", k));
+                        }
                         if hon == 4 {
                             lines.push(format!("native secq256k1 run {}: a role did not run the registered randomized closures exactly once in registration order", k));
                         }
@@ -825,7 +840,7 @@ fn main() {
                     println!("REPLAY {}", if any_wrong { "REPRODUCED" } else { "NOT-REPRODUCED" });
                     std::process::exit(if any_wrong { 1 } else { 0 });
                 }
-                Some(kind @ ("c10" | "c13" | "c15" | "c07" | "c07torsion" | "c06" | "c09" | "c05" | "c04" | "c03" | "c18" | "c17" | "c16" | "c08" | "c11" | "c12" | "c04bits")) => {
+                Some(kind @ ("c10" | "c13" | "c15" | "c07" | "c07torsion" | "c04torsion" | "c06" | "c09" | "c05" | "c04" | "c03" | "c18" | "c17" | "c16" | "c08" | "c11" | "c12" | "c04bits")) => {
                     let seed = rp["seed"].as_u64().unwrap_or(0);
                     let curve = v["curve"].as_str().or(rp["curve"].as_str()).unwrap_or("secq256k1").to_string();
                     let mut any_wrong = false;
